@@ -7,6 +7,7 @@ import (
 	"go/token"
 	"go/types"
 	"sort"
+	"strings"
 
 	"golang.org/x/tools/go/ssa"
 )
@@ -23,6 +24,7 @@ func init() {
 			{"connect.go", "func stars(v int) string {", "func starsOf(v []byte) string {\n\tif len(v) > 0 && v[0] == 'x' {\n\t\treturn \"x********\"\n\t}\n\treturn stars(len(v))\n}\n\nfunc stars(v int) string {"}}},
 		{Name: "password-written-to-writer", Rule: "R18.1", Where: "(*Connect).dump", Edits: []Edit{{"connect.go", "\tp.UserProperties.dump(w)\n}\n\nfunc stars", "\tp.UserProperties.dump(w)\n\tw.Write(p.password)\n}\n\nfunc stars"}}},
 		{Name: "decoder-rewinds-to-declared-property-end", Rule: "R18.3", Where: "offset written outside get", Edits: []Edit{{"buffer.go", "\t\tdefault:\n\t\t\tb.err = fmt.Errorf(\"unknown property id 0x%02x\", id)\n\t\t}\n\t}\n", "\t\tdefault:\n\t\t\tb.err = fmt.Errorf(\"unknown property id 0x%02x\", id)\n\t\t}\n\t}\n\tb.i = end\n"}}},
+		{Name: "will-payload-copied-from-rest-of-frame", Rule: "R18.4", Where: "(*Connect).UnmarshalBinary#frame-access", Edits: []Edit{{"connect.go", "\t\tp.will.SetRetain(p.flags.Has(WillRetain))\n", "\t\tp.will.SetRetain(p.flags.Has(WillRetain))\n\t\tp.will.payload = append(rawdata(nil), buf.data[buf.i-len(p.willPayload):]...)\n"}}},
 		{Name: "print-length-only", Silent: true, Edits: []Edit{{"connect.go", "fmt.Fprintf(w, \"Password: %q\\n\", stars(len(p.Password())))", "fmt.Fprintf(w, \"Password: %d bytes\\n\", len(p.Password()))"}}},
 	}})
 }
@@ -342,6 +344,8 @@ func checkC18(p *Prog, c *Check) {
 	c.Assumptions = []string{"credentials enter a CONNECT only through the fields behind Username()/Password() (SetUsername/SetPassword/decode)"}
 	c.Rule("R18.3", "packets decoded from the wire: the sequential reader's offset is written only by its guarded primitive, which only moves it forward, so every byte of a frame is decoded into at most one field and the bytes of the user name and password cannot also appear in a field that diagnostics print (same lemmas as C04 R4.0)")
 	p.Cursor().CheckLemmas(p, c, "R18.3")
+	c.Rule("R18.4", "packets decoded from the wire: the CONNECT decoder and everything it reaches touch the frame only through the sequential reader's guarded primitive — the input slice and the reader's data field are otherwise used only to build the reader and in len(): no second, unaccounted read can copy the bytes of the credentials into another field")
+	checkFrameOnlyThroughReader(p, c, "Connect", "R18.4")
 	fu, ok1 := p.accessorField("Connect", "Username")
 	fp, ok2 := p.accessorField("Connect", "Password")
 	if !ok1 || !ok2 {
@@ -455,4 +459,75 @@ func checkC18(p *Prog, c *Check) {
 	}
 	sort.Strings(keys)
 	c.Notes = append(c.Notes, "credential fields: "+fmt.Sprint(keys))
+}
+
+// checkFrameOnlyThroughReader: in tn's UnmarshalBinary and the mq functions it reaches (wire decoders aside,
+// which work on the slice the guarded primitive hands them), every use of the input slice and of the
+// sequential reader's data field is the construction of the reader, a len(), or lies inside the guarded primitive.
+func checkFrameOnlyThroughReader(p *Prog, c *Check, tn, rule string) {
+	cur := p.Cursor()
+	dec := p.Method(tn, "UnmarshalBinary")
+	cons := "(*" + tn + ").UnmarshalBinary#frame-access"
+	if cur.G == nil || dec == nil {
+		c.Unk(rule, cons, "-", "decoder or sequential reader not found")
+		return
+	}
+	wire := map[*ssa.Function]bool{}
+	for _, d := range p.cachedWireDecoders() {
+		wire[d] = true
+	}
+	bad := ""
+	nuses := 0
+	for _, fn := range sortedFuncs(p.Reach([]*ssa.Function{dec})) {
+		if fn == cur.G || wire[fn] || fn.Pkg == nil || fn.Pkg.Pkg != p.Pkg {
+			continue
+		}
+		// values that are the frame: the data parameter of the packet decoder, loads of the reader's data field
+		var frame []ssa.Value
+		if fn == dec && len(fn.Params) > 1 {
+			frame = append(frame, fn.Params[1])
+		}
+		for _, b := range fn.Blocks {
+			for _, ins := range b.Instrs {
+				if ld, ok := ins.(*ssa.UnOp); ok && ld.Op == token.MUL {
+					if _, isD := cur.isField(ld.X, cur.D); isD {
+						frame = append(frame, ld)
+					}
+				}
+			}
+		}
+		for _, v := range frame {
+			for _, r := range *v.Referrers() {
+				nuses++
+				switch x := r.(type) {
+				case *ssa.DebugRef:
+					continue
+				case *ssa.Store:
+					if _, isD := cur.isField(x.Addr, cur.D); isD && x.Val == v {
+						continue // building the reader
+					}
+				case *ssa.Call:
+					if bi, ok := x.Call.Value.(*ssa.Builtin); ok && bi.Name() == "len" {
+						continue
+					}
+				}
+				if bad == "" {
+					bad = fmt.Sprintf("%s uses the frame outside the sequential reader at %s (%s): bytes can be decoded into a field without being accounted for", qname(fn), posOf(p, r), describeInstr(r))
+				}
+			}
+		}
+	}
+	if bad != "" {
+		c.Bad(rule, cons, p.Pos(dec.Pos()), bad)
+	} else {
+		c.OK(rule, cons, p.Pos(dec.Pos()), fmt.Sprintf("%d uses of the frame outside the guarded primitive: reader construction and len() only", nuses))
+	}
+}
+
+func describeInstr(i ssa.Instruction) string {
+	s := i.String()
+	if len(s) > 80 {
+		s = s[:80] + "…"
+	}
+	return strings.ReplaceAll(s, "\n", " ")
 }
